@@ -60,41 +60,45 @@ ObsUnitTable ==
     ELSE Chk("unit_row_absent", ~o.present)
 
 ObsRow(l, k) == Obs.tables[l][k]
+Adv(name, cond) == cond \/ PrintT(<<"ADVISORY", ToJson([tid |-> tid, clause |-> name])>>)
+\* rows are matched BY KEY: the property speaks about the group a row belongs to, not about the order of the rows
+HasRow(l, g) == \E k \in 1..Len(Obs.tables[l]) : ObsRow(l, k).key = g
+RowFor(l, g) == ObsRow(l, CHOOSE k \in 1..Len(Obs.tables[l]) : ObsRow(l, k).key = g)
 ObsGroups ==
   Done => \A l \in Levels :
     /\ Chk("group_count", Len(Obs.tables[l]) = Len(tables[l].rows))
-    /\ \A k \in 1..Len(tables[l].rows) :
-         k <= Len(Obs.tables[l]) =>
-           LET g == tables[l].rows[k]
-               e == tables[l].val[g]
-               o == ObsRow(l, k)
-           IN /\ Chk("group_key_order", o.key = g)
-              /\ Chk("group_counted", o.counted = e.counted)
-              /\ Chk("group_reporting", o.reporting = e.reporting)
+    /\ \A k1, k2 \in 1..Len(Obs.tables[l]) : k1 # k2 => Chk("group_row_once", ObsRow(l, k1).key # ObsRow(l, k2).key)
+    /\ \A g \in DOMAIN tables[l].val :
+         /\ Chk("group_present", HasRow(l, g))
+         /\ HasRow(l, g) =>
+              /\ Chk("group_counted", RowFor(l, g).counted = tables[l].val[g].counted)
+              /\ Chk("group_reporting", RowFor(l, g).reporting = tables[l].val[g].reporting)
+    \* the code returns rows sorted by key; a different order is reported as drift only
+    /\ \A k \in 1..Len(tables[l].rows) : k <= Len(Obs.tables[l]) => Adv("row_order_differs_from_sorted_keys", ObsRow(l, k).key = tables[l].rows[k])
 
 (* C02 *)
 ObsPred ==   \* vote-count estimands (nonparametric, gaussian); the bootstrap identities are ObsBootstrap
-  (Done /\ Est # "bootstrap") => \A l \in Levels : \A k \in 1..Len(tables[l].rows) :
-    (k <= Len(Obs.tables[l]) /\ ObsRow(l, k).key = tables[l].rows[k]) =>
-      LET e == tables[l].val[tables[l].rows[k]]
-          o == ObsRow(l, k)
+  (Done /\ Est # "bootstrap") => \A l \in Levels : \A g \in DOMAIN tables[l].val :
+    HasRow(l, g) =>
+      LET e == tables[l].val[g]
+          o == RowFor(l, g)
       IN /\ Chk("group_pred_is_sum", o.pred = e.pred)
          /\ (Est = "nonparametric" =>
                \A a \in 1..NAlpha : /\ Chk("group_lower_is_sum", o.lower[a] = e.lower[a])
                                     /\ Chk("group_upper_is_sum", o.upper[a] = e.upper[a]))
-ObsRowOrder ==
+ObsRowOrder ==   \* every group exactly once (the order itself is advisory, see ObsGroups)
   Done => \A l \in Levels :
     /\ Chk("group_count", Len(Obs.tables[l]) = Len(tables[l].rows))
-    /\ \A k \in 1..Len(tables[l].rows) : k <= Len(Obs.tables[l]) => Chk("group_key_order", ObsRow(l, k).key = tables[l].rows[k])
+    /\ \A g \in DOMAIN tables[l].val : Chk("group_present", HasRow(l, g))
 
 \* bootstrap: group turnout = sum of its units' predicted turnout; margin * turnout = sum of unit margins
 \* (values logged in thousandths, each rounded: slack = number of members + 1)
 Abs(x) == IF x < 0 THEN -x ELSE x
 ObsBootstrap ==
-  (Done /\ Est = "bootstrap") => \A l \in Levels : \A k \in 1..Len(tables[l].rows) :
-    (k <= Len(Obs.tables[l]) /\ ObsRow(l, k).key = tables[l].rows[k]) =>
-      LET e == tables[l].val[tables[l].rows[k]]
-          o == ObsRow(l, k)
+  (Done /\ Est = "bootstrap") => \A l \in Levels : \A g \in DOMAIN tables[l].val :
+    HasRow(l, g) =>
+      LET e == tables[l].val[g]
+          o == RowFor(l, g)
       IN /\ Chk("group_turnout_is_sum", Abs(o.pt - e.ptsum) <= e.nmemb + 1)
          /\ Chk("group_margin_is_sum", Abs(o.pm - e.pmsum) <= e.nmemb + 1)
 
@@ -119,7 +123,7 @@ ObsFloors ==
          LET o == ObsRow(l, k) IN
          /\ Chk("group_pred_floor", o.pred >= o.counted)
          /\ \A a \in 1..NAlpha : Chk("group_lower_floor", o.lower[a] >= o.counted) /\ Chk("group_upper_floor", o.upper[a] >= o.counted)
-         /\ ((k <= Len(tables[l].rows) /\ o.key = tables[l].rows[k] /\ ~tables[l].val[o.key].hasN) =>
+         /\ ((o.key \in DOMAIN tables[l].val /\ ~tables[l].val[o.key].hasN) =>
                /\ Chk("group_final_pred", o.pred = o.counted)
                /\ \A a \in 1..NAlpha : Chk("group_final_lower", o.lower[a] = o.counted) /\ Chk("group_final_upper", o.upper[a] = o.counted))
 =============================================================================
